@@ -684,6 +684,8 @@ def _step(s: Ref, mn: str, ops: list) -> None:
         sp = s.get("S")
         if sp - 5 < 0:
             raise Unjudged("pointer_wrap")
+        if sp - 5 <= VEC_IRQ + 2 and sp - 1 >= VEC_IRQ:
+            raise Unjudged("ir_push_overwrites_vector")
         imr = s.get("IMR")
         f = s.get("F")
         s.set("S", sp - 5)
